@@ -17,12 +17,12 @@ def check(ctx):
         args = ['--bound', str(bound), '--jobs', str(min(vlib.NJOBS, 8 if ctx.tier == 'quick' else 12)), '--outdir', vlib.OUT, '--deadline', str(deadline)]
         ctx.run_engine(exe, args, label='rwlock-%s-b%d' % (sets.replace(',', '+'), bound), timeout=deadline + 600, env=env)
     if ctx.tier == 'quick':
-        leg('pairs,small3', 2, 60)
-        leg('quick3', 1, 25)
+        leg('pairs,small3', 2, 50)
+        leg('quick3', 1, 18)
     else:
-        leg('pairs', 4, 240)
-        leg('small3,big3', 3, 420)
-        leg('mixed3', 2, 420)
+        leg('pairs', 4, 180)
+        leg('small3,big3', 3, 300)
+        leg('mixed3', 2, 300)
     return ctx.finish(RULE, ["sequential consistency at instrumented accesses (no weak-memory effects)",
                              "gcc -fsanitize=thread instrumentation reports every access to the watched objects",
                              "progress is established for bounded scripts (<= 2 cycles per thread): every thread finishes in every explored schedule"])
